@@ -144,6 +144,8 @@ def esc(s, fmt, rng):
                 out += '&nbsp;'
             elif ch == '\u200e' and rng.random() < 0.7:
                 out += '&lrm;'
+            elif ch == '\u200f' and rng.random() < 0.7:
+                out += '&rlm;'
             else:
                 out += ch
             i += 1
